@@ -1,5 +1,5 @@
 """C14 — response matching accepts mirrored replies, rejects strangers, is memory-safe."""
-import collections, random
+import collections, glob, os, random
 from vlib import core, corr
 
 AREA = "C14"
@@ -449,6 +449,8 @@ GROUPS = {"len-random": "lengths", "len-mirror": "lengths", "trunc": "trunc", "p
 def group_of(op):
     w = op.split(" ")
     tag = w[3].lstrip("#").split(":")[0] if len(w) > 3 else w[0]
+    if tag == "corpus" or tag == "layout":
+        return "corpus"
     if tag.startswith("unreach") or tag.startswith("icmp-error"):
         return "icmp-error"
     return GROUPS.get(tag, "mirror")
@@ -466,6 +468,9 @@ def sig_of(kind, detail, case):
 def build_ops(chk, exe, rng):
     quick = chk.tier == "quick"
     ops = ["layout"]
+    # (0) regression corpus: minimal inputs of past findings run first
+    for f in sorted(glob.glob(os.path.join(core.VERIF, "corpus", "C14", "*.ops"))):
+        ops += [l.rstrip("\n") for l in open(f) if l.strip() and not l.startswith("#")]
     gen_failures = []
     # (1) every class as the outermost object, with and without an inner RawPDU: every buffer length 0..128,
     #     random contents and the (perturbed) mirror cut / padded to that length
